@@ -101,6 +101,13 @@ CFG = {
         "tol": {"*": 1e-9},
         "extra_tier": {"thorough": ["--thorough"]},
     },
+    "C15": {
+        "cases": {"quick": 800, "thorough": 80000},
+        "level_text": "Theorems: the Poisson-disk sweep returns a subset in which no two kept points cover each other and every working point is covered by a kept one (for every visiting order); brute-force nearest is minimal; the partial tree's index remap returns the original index of the same point; barycentric sample weights are non-negative and sum to one; the cumulative-area pick selects face i exactly on its interval. kiddo and parry's hull are external: compared with brute force on every run (ties, duplicates, grids).",
+        "level_note": "Partial: k-d tree and convex hull are compared, not proved; uniform-sampling proportionality is a statistical test (6 sigma band). Trusted: Lean kernel, Mathlib, hand-written model validated by the correspondence run.",
+        "files": ["src/common/kd_tree.rs", "src/common/poisson_disk.rs", "src/geom3/mesh/sampling.rs", "src/geom2/hull.rs", "src/geom3/point_cloud.rs"],
+        "tol": {"*": 1e-9},
+    },
     "C16": {
         "cases": {"quick": 1600, "thorough": 160000},
         "level_text": "Theorems about the model: deviation magnitude/sign/reconstruction (ℝ), Distance value/reversal, DevSet cached-extreme invariant for every new/push history, point-cloud length invariant for every history incl. rejected operations, tolerance-map = greatest breakpoint not above x. Model tied to the Rust by a differential run on every check.",
